@@ -176,11 +176,11 @@ def dispatchX : List String → Option (Obs × Option Obs)
     let all := match findSequencesOnDisk d xDir { o with single := true, hidden := true } with
       | .ok l => l | .error _ => []
     if !xDirDomain names all then some (skipObs, none) else
-    match findSequencesOnDisk d xDir o with
-    | .error _ => some ([("err", "err")], some [("err", "err")])
-    | .ok seqs =>
-      let ob : Obs := ("err", "ok") :: xSeqsObs seqs
-      some (ob, some ob)
+    -- the port: its own two-pass scan (Cpp.scan); the Go library: findSequencesOnDisk
+    let obOf : Except Err (List Seq) → Obs
+      | .error _ => [("err", "err")]
+      | .ok seqs => ("err", "ok") :: xSeqsObs seqs
+    some (obOf (Cpp.scan d xDir o), some (obOf (findSequencesOnDisk d xDir o)))
   | "x.find" :: st :: pat :: ents :: rest =>
     let xDir := xDirOf rest
     let st := styleOf st
